@@ -249,7 +249,7 @@ pub fn run_c(dir: &str) {
                         .iter()
                         .map(|k| {
                             let val = m.get(*k).unwrap();
-                            format!("{}={}@{}", escv(k.as_bytes()), escv(val.value.as_bytes()), val.version)
+                            format!("{}={}@{}/{}", escv(k.as_bytes()), escv(val.value.as_bytes()), val.version, crate::node::state_letter(val.state))
                         })
                         .collect();
                     out.push_str(&items.join(","));
